@@ -22,8 +22,9 @@
 (* answer equals a recomputation on the current graph, hence at the end).  *)
 (*                                                                         *)
 (* Deviations = {}  : the intended design, every property holds.           *)
-(* Deviations # {}  : the pinned code (caches never cleared by             *)
-(*                    add_subclass_edge / add_generator, distance quirks); *)
+(* Deviations # {}  : the code as it is (TypeSystemOps.AllDeviations:      *)
+(*                    add_subclass_edge clears the TypeSystem caches but   *)
+(*                    not the provider caches, distance quirks);           *)
 (*                    TLC must find the counterexamples.                   *)
 (***************************************************************************)
 EXTENDS TypeSystemOps, TLC, SequencesExt
@@ -225,10 +226,15 @@ AfterQuery(st, m, k) ==
 Without(m, kinds) == [x \in {y \in DOMAIN m : y.q \notin kinds} |-> m[x]]
 EmptyMemo == [x \in {} |-> Ans(FALSE, 0, {})]
 
-\* effect of the three updates on the caches
-MemoAfterAddEdge(m) == IF "NoClearOnAddEdge" \in Deviations THEN m ELSE EmptyMemo
-MemoAfterAddGenerator(m) ==
-  IF "NoClearOnAddGenerator" \in Deviations THEN m ELSE Without(m, ProviderQueries)
+Only(m, kinds) == [x \in {y \in DOMAIN m : y.q \in kinds} |-> m[x]]
+
+\* effect of the three updates on the caches.  add_subclass_edge: cache_clear() of the six
+\* TypeSystem queries; the TypeSystem has no link to the providers, so in the code their
+\* entries survive (intended: nothing that depends on the graph survives)
+MemoAfterAddEdge(m) ==
+  IF "NoProviderClearOnAddEdge" \in Deviations THEN Only(m, ProviderQueries) ELSE EmptyMemo
+\* GeneratorProvider.add / add_for_type: clear_generator_cache()
+MemoAfterAddGenerator(m) == Without(m, ProviderQueries)
 MemoAfterUpdateReturnType(m) == Without(m, ProviderQueries)     \* clear_generator_cache()
 
 Queries ==
